@@ -97,7 +97,8 @@ def run_driver(binary, driver, outdir, tier, seed, extra=(), timeout=3600, env=N
 
 
 _STATES = re.compile(r"(\d+) states generated, (\d+) distinct states found")
-_MISM = re.compile(r'^<<"MISMATCH", (\d+), "(.*)">>\s*$')
+# one string per mismatch: TLC wraps long tuples over several lines, never a string
+_MISM = re.compile(r'^"MISMATCH\|(\d+)\|(.*)"\s*$')
 
 
 def _java(xmx="4g", gc="-XX:+UseSerialGC", props=()):
@@ -155,6 +156,10 @@ def _trace_one(tla, cfg, shard, metadir, env, timeout, xmx):
         pass
     gen, dist = (int(m.group(1)), int(m.group(2))) if m else (0, 0)
     res = {"shard": shard, "mismatches": mism, "generated": gen, "distinct": dist}
+    if out.count("MISMATCH") != len(mism):
+        # a mismatch line that the parser did not understand must never be lost
+        res["tool_error"] = "unparsed MISMATCH output:\n" + "\n".join(l for l in out.splitlines() if "MISMATCH" in l)[:2000]
+        return res
     if p.returncode != 0 or "No error has been found" not in out:
         # the trace spec never blocks: any TLC error here is a tool problem
         # (malformed event, evaluation error), not a verdict
